@@ -3,10 +3,11 @@ package codec
 import (
 	"errors"
 	"fmt"
-	"time"
 	"reflect"
 	"sort"
 	"strings"
+	"sync/atomic"
+	"time"
 
 	"github.com/PapaCharlie/go-restli/v2/restli"
 	"github.com/PapaCharlie/go-restli/v2/restlicodec"
@@ -138,10 +139,18 @@ func readerFor(f Fmt, data []byte, excl []string, ignore int) (restlicodec.Reade
 	panic("bad fmt")
 }
 
+var confirmedHangs int32
+
 // Decode unmarshals data as a value of type t with the real bindings and returns the canonical
 // outcome line; a decode that does not return within the watchdog period is reported as `hang`
 // (retried once, in isolation, before it counts).
 func (b *Bridge) Decode(f Fmt, t Ty, data []byte, excl []string, ignore int) string {
+	// a decoder that hangs leaves a spinning goroutine behind each time; after three confirmed
+	// hangs the run is already a violation and further decodes are not started (they would only
+	// starve the rest of the run)
+	if atomic.LoadInt32(&confirmedHangs) >= 3 {
+		return "hang"
+	}
 	for attempt := 0; ; attempt++ {
 		ch := make(chan string, 1)
 		go func() { ch <- b.decode1(f, t, data, excl, ignore) }()
@@ -150,6 +159,7 @@ func (b *Bridge) Decode(f Fmt, t Ty, data []byte, excl []string, ignore int) str
 			return out
 		case <-time.After(4 * time.Second):
 			if attempt == 1 {
+				atomic.AddInt32(&confirmedHangs, 1)
 				return "hang"
 			}
 		}
